@@ -39,6 +39,14 @@ def check_split(ctx, rule_b, rule_c, names=None):
             continue
         sc = pressure_arms(ctx, q, opaque={PBQ})
         if len(sc) != 2 or any(len(k) != 1 for k in sc):
+            # several pressure predicates: thresholds other than the library's bubble point (the formulas of the function
+            # and of the correlations it calls then switch at different pressures) are reported as such
+            from .common import check_bubble_threshold
+
+            nb = sum(1 for o in ctx.obligs if o.status == "violated")
+            check_bubble_threshold(ctx, rule_b, [q])
+            if sum(1 for o in ctx.obligs if o.status == "violated") > nb:
+                continue
             raise AnalysisError(f"{q}: scalar branch is not a two-way split on one pressure predicate")
         (key, _c) = next(iter(sc))[0]
         arms = {c: v for ((k, c),), (v, _d, _p) in sc.items()}
